@@ -22,8 +22,14 @@ def lit(rng, v=None):
     if base == "hex":
         s = "%x" % v
         s = "".join(c.upper() if rng.random() < 0.5 else c for c in s)
+        # zero-padded spellings (0x00ff, 0x000080): the value, and the width `~` complements in, come from the value alone
+        if rng.random() < 0.3:
+            s = s.rjust(rng.choice([2, 4, 6, 8]), "0")
         return ("num", "hex", s)
-    return ("num", "bin", bin(v)[2:])
+    b = bin(v)[2:]
+    if rng.random() < 0.3:
+        b = b.rjust(rng.choice([8, 16, 24]), "0")
+    return ("num", "bin", b)
 
 
 def level(t):
